@@ -311,6 +311,8 @@ pub mod named {
     }
     named_types!(A, B, C, D, E, F, G, H, I, J, K, L, M, N, O, P, Q, R, S, T, U, V, W, X, Y, Z, Msg, Query, Param, Data, Exec, Custom, Item);
     named_types!(T1, T2, ExecT, QueryT, ParamT, RespT, FieldT, ItemT, ParamA, RespB, ItemC, KeyD, ErrT, Error, Key, Value, Config, State);
+    named_types!(ExecC, QueryC, Api, Ctx, Deps, Env, Info, Storage, Response, Reply, Event, Coin, Addr, Binary, Empty, Contract, Remote, Executor,
+                 Querier, Interface, Token, Owner, Admin, Payload, Result2, Messages, Sudo, Migrate, Instantiate, CustomMsg, CustomQuery, ContractT, MtApp);
     pub(crate) use named_types;
 }
 
